@@ -112,14 +112,58 @@ theorem filters_nonempty_prefix (o : Ops α) (p mp : α) (L : List (Tok α)) (hL
   subst hl
   exact minP_ne_nil o mp t0 rest hmul
 
-/-- `topK` on its sorting branch, and the specification-level top-k for every `k`, return the
-    `k` largest tokens in descending order (`IsTopK`); the heap branch is mirrored exactly in the
-    model and validated against `IsTopK` on every sampled run -/
+/-- **topK is a correct top-k on BOTH branches, for every `k`**: the specification-level top-k and
+    the implemented `topK` — the sort branch and (round 7) the heap branch, an exact mirror of
+    `container/heap` Init/Push/Pop/up/down — return the `k` largest tokens in descending order
+    (`IsTopK`: length, descending, a sub-multiset of the input, nothing left out exceeds anything
+    kept).  No bound on `k` or on the vocabulary size; needs only the strict weak order. -/
 theorem topK_isTopK {o : Ops α} (h : OrdLaws o) (k : Int) (ts : List (Tok α)) :
-    IsTopK o k ts (topKSpec o k ts) ∧
-    ((k ≥ ts.length ∨ k ≤ 0) → IsTopK o k ts (topK o k ts)) := by
-  refine ⟨topKSpec_isTopK h k ts, fun hk => ?_⟩
-  rw [topK_sort_branch o k ts hk]; exact topKSpec_isTopK h k ts
+    IsTopK o k ts (topKSpec o k ts) ∧ IsTopK o k ts (topK o k ts) :=
+  ⟨topKSpec_isTopK h k ts, topK_isTopK_all h k ts⟩
+
+/-- the number of tokens strictly above a kept token is smaller than the number kept -/
+theorem isTopK_count {o : Ops α} (h : OrdLaws o) {k : Int} {ts out : List (Tok α)} (ht : IsTopK o k ts out)
+    (y : Tok α) (hy : y ∈ out) :
+    (ts.filter (fun x => o.lt y.val x.val)).length < out.length := by
+  obtain ⟨rest, hp, hdom⟩ := ht.sub
+  have e1 : (ts.filter (fun x => o.lt y.val x.val)).length =
+      ((out ++ rest).filter (fun x => o.lt y.val x.val)).length := (hp.filter _).length_eq.symm
+  have e2 : rest.filter (fun x => o.lt y.val x.val) = [] := by
+    rw [List.filter_eq_nil_iff]
+    intro x hx hlt
+    have := hdom x hx y hy
+    rw [this] at hlt; cases hlt
+  rw [e1, List.filter_append, e2, List.append_nil]
+  have hle := List.length_filter_le (fun x => o.lt y.val x.val) out
+  rcases Nat.lt_or_ge (out.filter (fun x => o.lt y.val x.val)).length out.length with hlt | hge
+  · exact hlt
+  · have heq : (out.filter (fun x => o.lt y.val x.val)).length = out.length := by omega
+    have := (List.length_filter_eq_length_iff.1 heq) y hy
+    rw [h.irrefl] at this; cases this
+
+/-- **sample_in_topk** — the top-k clause of the property as a theorem, no run contract: at
+    temperature > 0 (both variants, any `r`, any carrier with a strict weak order) the returned id
+    is the id of a token `y` that `topK` kept, `y` carries the logit of that id, and FEWER THAN
+    `k` tokens (fewer than the vocabulary size when top-k is disabled) have a strictly larger
+    logit.  This is literally the predicate the L2 monitor `not-in-topk` evaluates on the real code. -/
+theorem sample_in_topk {o : Ops α} (h : OrdLaws o) (fix : Bool) (P : Params α) (r : α)
+    (logits : List α) (id : Nat) (ht : o.beq P.temp o.zero = false)
+    (hS : Sample o fix P r logits = .ok id) :
+    ∃ v, logits[id]? = some v ∧
+      ((mkTokens logits).filter (fun x => o.lt v x.val)).length <
+        (if P.topK ≥ (logits.length : Int) ∨ P.topK ≤ 0 then logits.length else P.topK.toNat) := by
+  obtain ⟨t, hc, hid⟩ := Sample_ok o fix P r logits id hS
+  unfold sampleCore at hc
+  simp only [ht, Bool.false_eq_true, if_false] at hc
+  obtain ⟨y, hy, hyid⟩ := afterTopK_id_any o fix P r _ t hc
+  have hk := (topK_isTopK h P.topK (mkTokens logits)).2
+  have hcount := isTopK_count h hk y hy
+  have hget := mkTokens_mem logits y (topK_mem o _ _ y hy)
+  have hlen : (mkTokens logits).length = logits.length := by
+    have := congrArg List.length (mkTokensFrom_vals 0 logits)
+    simpa [mkTokens] using this
+  rw [hk.len, hlen] at hcount
+  exact ⟨y.val, by rw [← hid, ← hyid]; exact hget, hcount⟩
 
 /-- **topK returns tokens of its input** — both branches, no law assumed; for `0 < k < len` the
     heap branch (exact mirror of `container/heap`) returns exactly `k` of them -/
@@ -841,6 +885,14 @@ example :
     (sampleHist X.ops (fun _ => .fin 0) false { xParams with temp := .fin 0 } (pcgOfSeed 7)
         [[.fin 3, .fin 5], [.ninf, .fin 2, .fin 2]]).map (fun r => r.toOption) = [some 1, some 1] ∧
     newRng (-1) = none ∧ newRng 0 = some ⟨0, 0x9E3779B9⟩ := by
+  decide
+
+/-- non-vacuity: the heap branch on the witness carrier (`k = 2` of 4 tokens, a tie, a `-Inf`):
+    the two largest in descending order; the replaced root is the first-seen `3` -/
+example :
+    (topK X.ops 2 [⟨0, .fin 3⟩, ⟨1, .ninf⟩, ⟨2, .fin 7⟩, ⟨3, .fin 3⟩]).map (·.id) = [2, 0] ∧
+    (Sample X.ops true ⟨.fin 1, 2, .fin 1, .fin 0, false⟩ (.fin 0) [.fin 3, .ninf, .fin 7, .fin 3]).toOption
+      = some 2 := by
   decide
 
 /-! ### the laws are satisfiable -/
